@@ -15,6 +15,7 @@ import (
 	"google.golang.org/protobuf/encoding/protojson"
 	"google.golang.org/protobuf/proto"
 	"google.golang.org/protobuf/reflect/protoreflect"
+	"google.golang.org/protobuf/types/dynamicpb"
 	"pgregory.net/rapid"
 
 	"verif/harness/internal/ev"
@@ -32,6 +33,68 @@ type JCase struct {
 	AllowUnknown  bool `json:"allow_unknown"`
 	DropRequired  bool `json:"drop_required"`
 	AllowPartial  bool `json:"allow_partial"`
+	// a MarshalJSON call that fails, made through the adapter right before the case's own (0 = none)
+	Prelude int `json:"prelude,omitempty"`
+}
+
+// jsonPreludes: messages the JSON writers of the three runtimes refuse, some of them only after part of the
+// output has been produced.  What the refused call returns is not examined (the property is silent about
+// it); the call after it must be unaffected.
+var jsonPreludes = []struct {
+	name string
+	file string
+	msg  string
+	mk   func(md protoreflect.MessageDescriptor) *dynamicpb.Message
+}{
+	{}, // 0: none
+	{"timestamp-out-of-range", "wkt", "Event", func(md protoreflect.MessageDescriptor) *dynamicpb.Message {
+		m := dynamicpb.NewMessage(md)
+		m.Set(md.Fields().ByName("id"), protoreflect.ValueOfString("refused"))
+		ts := m.Mutable(md.Fields().ByName("at")).Message()
+		ts.Set(ts.Descriptor().Fields().ByName("seconds"), protoreflect.ValueOfInt64(1e13))
+		ts.Set(ts.Descriptor().Fields().ByName("nanos"), protoreflect.ValueOfInt32(-5))
+		return m
+	}},
+	{"duration-out-of-range", "wkt", "Event", func(md protoreflect.MessageDescriptor) *dynamicpb.Message {
+		m := dynamicpb.NewMessage(md)
+		m.Set(md.Fields().ByName("id"), protoreflect.ValueOfString("refused"))
+		d := m.Mutable(md.Fields().ByName("took")).Message()
+		d.Set(d.Descriptor().Fields().ByName("seconds"), protoreflect.ValueOfInt64(4e12))
+		d.Set(d.Descriptor().Fields().ByName("nanos"), protoreflect.ValueOfInt32(-1e9-1))
+		return m
+	}},
+	{"history-entry-out-of-range", "wkt", "Event", func(md protoreflect.MessageDescriptor) *dynamicpb.Message {
+		m := dynamicpb.NewMessage(md)
+		m.Set(md.Fields().ByName("id"), protoreflect.ValueOfString("refused"))
+		l := m.Mutable(md.Fields().ByName("history")).List()
+		ok := l.NewElement()
+		ok.Message().Set(ok.Message().Descriptor().Fields().ByName("seconds"), protoreflect.ValueOfInt64(1))
+		l.Append(ok)
+		bad := l.NewElement()
+		bad.Message().Set(bad.Message().Descriptor().Fields().ByName("seconds"), protoreflect.ValueOfInt64(-1e13))
+		l.Append(bad)
+		return m
+	}},
+	{"required-field-missing-in-child", "required", "InField", func(md protoreflect.MessageDescriptor) *dynamicpb.Message {
+		m := dynamicpb.NewMessage(md)
+		m.Set(md.Fields().ByName("x"), protoreflect.ValueOfInt32(7))
+		m.Mutable(md.Fields().ByName("child")) // present, its required field unset
+		return m
+	}},
+}
+
+// runPrelude performs prelude k on a message of the same variant as mt; reports whether the call was refused.
+func runPrelude(k int, mt *MsgType) (refused bool) {
+	p := jsonPreludes[k]
+	pmt := typeByKey[mt.Info.Variant+"/"+p.file+"/"+p.msg]
+	if pmt == nil {
+		return false
+	}
+	defer func() { _ = recover() }()
+	m := pmt.New()
+	FromDynamic(p.mk(pmt.Desc), m)
+	_, err := csproto.JSONMarshaler(m).MarshalJSON()
+	return err != nil
 }
 
 func jsonSig(kind string, mt *MsgType) string {
@@ -66,6 +129,9 @@ func oracleC18(c *JCase) (fail *ev.Failure) {
 	dyn := decodeRef(mt.Desc, c.Value)
 	m := mt.New()
 	FromDynamic(dyn, m)
+	if c.Prelude > 0 && c.Prelude < len(jsonPreludes) {
+		runPrelude(c.Prelude, mt)
+	}
 	opts := []csproto.JSONOption{csproto.JSONIndent(c.Indent), csproto.JSONUseEnumNumbers(c.EnumNumbers), csproto.JSONIncludeZeroValues(c.ZeroValues)}
 	out, err := csproto.JSONMarshaler(m, opts...).MarshalJSON()
 	if err != nil {
@@ -256,7 +322,7 @@ func jsonTypes() []*MsgType {
 	return out
 }
 
-const ruleC18 = "case = (message type of the corpus for gogo / Google v1 (legacy) / Google v2, plain and fast-marshal; value incl. enums, 64-bit integers, bytes, maps, oneofs, well-known types; the 2^3 marshal option combinations; indent in {\"\", \" \", \"  \", \"\\t\", \" \\t\"}; JSON with/without an injected unknown key x AllowUnknownFields; JSON with/without a required field x AllowPartialMessages (Google v2)); oracle: json.Valid, adapter round trip == original, the OWNING runtime's JSON decoder accepts the output and decodes the original, structural probes for every option, nil => (nil, nil), unmarshal into nil => error; non-trivial = message with >= 1 enum / 64-bit / bytes / map field set and >= 1 option set; distinct by case content"
+const ruleC18 = "case = (message type of the corpus for gogo / Google v1 (legacy) / Google v2, plain and fast-marshal; value incl. enums, 64-bit integers, bytes, maps, oneofs, well-known types; the 2^3 marshal option combinations; indent in {\"\", \" \", \"  \", \"\\t\", \" \\t\"}; JSON with/without an injected unknown key x AllowUnknownFields; JSON with/without a required field x AllowPartialMessages (Google v2); 1 in 3 right after a MarshalJSON call that the runtime refuses (out-of-range Timestamp / Duration, also as a later list element; required field missing in a child)); oracle: json.Valid, adapter round trip == original, the OWNING runtime's JSON decoder accepts the output and decodes the original, structural probes for every option, nil => (nil, nil), unmarshal into nil => error; non-trivial = message with >= 1 enum / 64-bit / bytes / map field set and >= 1 option set; distinct by case content"
 
 func TestC18(t *testing.T) {
 	rec := ev.New("C18", ruleC18)
@@ -281,6 +347,10 @@ func TestC18(t *testing.T) {
 			AllowUnknown:  rapid.Bool().Draw(rt, "allowunk"),
 			DropRequired:  rapid.Bool().Draw(rt, "dropreq"),
 			AllowPartial:  rapid.Bool().Draw(rt, "allowpartial"),
+		}
+		if rapid.IntRange(0, 2).Draw(rt, "hasprelude") == 0 {
+			c.Prelude = rapid.IntRange(1, len(jsonPreludes)-1).Draw(rt, "prelude")
+			rec.Class("after-a-refused-marshal/" + jsonPreludes[c.Prelude].name)
 		}
 		rec.Eval(1)
 		rec.Class("runtime/" + mt.Info.Runtime)
